@@ -191,4 +191,41 @@ def r06_4_rk(cx):
     src = [b.call_term(bi, t) for bi, t in b.calls(r'IntoIterator::into_iter$|core::slice::iter$|Iterator::rev$')]
     if any(is_call(s, r'Iterator::rev$') for s in src):
         why = why or 'the bucket is walked backwards'
+    # every entry of the bucket is looked at: an iteration that drew an entry either goes on to the next entry or returns the
+    # match it verified; an entry is skipped only when its hash differs from the window's
+    whyb = None
+    if K.irows:
+        for r in K.irows:
+            some = r.cond(lambda c: canon(c)[0] == 'discr' and is_call(canon(c)[1], r'Iterator::next$'))
+            if isinstance(some, tuple) and some[0] == 'not':
+                some = 0 if 1 in some[1] else 1
+            if some != 1 or r.end == 'diverge':
+                continue
+            ver = r.cond(lambda c: canon(c)[0] == 'discr' and is_call(canon(c)[1], r'RabinKarp::verify$'))
+            if isinstance(ver, tuple) and ver[0] == 'not':
+                ver = 0 if 1 in ver[1] else 1
+            verified = ver == 1
+            if not (r.end == ('stop', K.inner) or (r.end == 'return' and verified)):
+                whyb = whyb or 'the scan of a bucket can stop before all its entries were examined (an entry with a different hash, or a failed verification, ends it)'
+            eq = None
+            for c, v in r.conds:
+                cc = canon(c)
+                if cc[0] == 'op' and cc[1] in ('Eq', 'Ne') and any(re.search(r'Iterator::next\(.*\) as Some\)\.0\.0$', cstr(x)) for x in (cc[2], cc[3])):
+                    eq = (v is True) if cc[1] == 'Eq' else (v is False)
+            recv = [canon(c)[1][2][0] for c, v in r.conds if canon(c)[0] == 'discr' and is_call(canon(c)[1], r'Iterator::next$')]
+            filt = recv[0] if recv and is_call(recv[0], r'Iterator::filter$') else None
+            if filt is not None:
+                # the comparison lives in a `filter` predicate: it must be hash-of-entry == window hash and nothing else
+                f = filt[2][1]
+                cb = cx.facts.bodies.get(f[2]) if f[0] == 'agg' and f[1] == 'closure' else None
+                fr = [x for x in summarize(cx.facts, cb) if x.end == 'return'] if cb is not None else []
+                good = len(fr) == 1 and canon(fr[0].ret)[0] == 'op' and canon(fr[0].ret)[1] == 'Eq' and not fr[0].conds
+                if not good or ver is None:
+                    whyb = whyb or 'entries are filtered by something other than `entry hash == window hash`'
+                continue
+            if ver is None and eq is not False:
+                whyb = whyb or 'an entry is skipped although its hash was not compared unequal'
+            if ver is not None and eq is not True:
+                whyb = whyb or 'an entry is verified although its hash was not compared equal'
+    cx.report('R06.4', b, 'bucket-exhausted', whyb is None, 'every entry of the bucket is examined; entries are skipped only on a hash mismatch' if whyb is None else whyb)
     cx.report('R06.4', b, 'first-verified', why is None, 'Rabin-Karp returns the first verified pattern of the bucket (bucket order = semantic order)' if why is None else why)
